@@ -62,3 +62,48 @@ def bagree (f : Func) (seed : Nat) : Bool :=
   runItemIR 400 f .canceled 3 1 cfg 2 item scr ctx == some (runItem .canceled 3 1 cfg 2 item scr ctx)
 #eval (List.range 20000).foldl (fun acc i => if bagree Flyt.Generated.IR.runExecWithRetries (i * 7919 + 13) then acc else acc + 1) 0
 end Flyt.GoIR.Test
+namespace Flyt.GoIR.Test
+/-! runBatchSequential vs itemsSeq -/
+def seqScenario (seed : Nat) : BatchCfg × BatchScript × Ctx × List Result :=
+  let (cfg, _, ctx, _) := bscenario seed
+  let s := lcg (seed + 5)
+  let n := pick s 5
+  let items := (List.range n).map fun j => newResult (.tok (100 + j))
+  let scr : BatchScript := { prep := { res := .ok [] }, item := (fun i => { exec := (fun k => mkOut (s + 131 * i + 977 * k)), waitCancel := (fun k => pick (s + 7 * i + 31 * k) 6 == 0), fb := mkOut (s + 17 * i) }), post := { res := .ok "a" } }
+  (cfg, scr, ctx, items)
+def idxOfTok (r : Result) : Nat := match r.value with | .tok n => n - 100 | _ => 0
+def sagree (f : Func) (seed : Nat) : Bool :=
+  let (cfg, scr, ctx, items) := seqScenario seed
+  itemsSeqIR 400 f .canceled 3 1 cfg scr idxOfTok items ctx == some (itemsSeq .canceled 3 1 cfg scr items 0 ctx)
+#eval (List.range 20000).foldl (fun acc i => if sagree Flyt.Generated.IR.runBatchSequential (i * 7919 + 13) then acc else acc + 1) 0
+
+/-! Flow.Exec vs flowLoop -/
+def acts : Array Action := #["a", "b", "", "default"]
+def mkAct2 (s : Nat) : Out Action :=
+  let r := pick s 8
+  if r < 6 then { res := .ok (acts[pick (lcg s) 4]!), cancels := pick (lcg (lcg s)) 9 == 0 } else { res := .error (pick (lcg s) 4) }
+def flowEnv (seed : Nat) : Flyt.Env × List ConnOp × Option NodeId :=
+  let mkOps (s : Nat) (m : Nat) (hi : Nat) : List ConnOp :=
+    (List.range m).map fun j => let t := lcg (s + 13 * j)
+      { src := pick t hi, action := acts[pick (lcg t) 4]!, dst := if pick (lcg (lcg t)) 6 == 0 then none else some (pick (lcg (lcg (lcg t))) hi) }
+  let innerOps := mkOps (seed + 1) 4 3
+  let env : Flyt.Env := {
+    kind := .canceled,
+    arena := (fun id => if id == 6 then .flow (some (pick seed 3)) innerOps else .leaf (scenario (seed + 101 * id)).1),
+    leafBeh := (fun id vis => let (_, scr, _) := scenario (seed + 101 * id + 7 * vis); { scr with post := mkAct2 (seed + 3 * id + 11 * vis) }),
+    batchBeh := (fun _ _ => { prep := { res := .ok [] }, item := (fun _ => { exec := (fun _ => { res := .ok (.tok 1) }), waitCancel := (fun _ => false), fb := { res := .ok (.tok 1) } }), post := { res := .ok "a" } }) }
+  (env, mkOps (seed + 2) 7 7, if pick (lcg seed) 12 == 0 then none else some (pick (lcg (lcg seed)) 7))
+instance : BEq RunSt := ⟨fun a b => a.ctx == b.ctx && (List.range 8).all fun i => a.visits i == b.visits i⟩
+def fagree (f : Func) (seed : Nat) : Option Bool :=
+  let (env, ops, start) := flowEnv seed
+  let st : RunSt := { ctx := if pick (lcg (seed + 9)) 10 == 0 then .done .canceled else .live, visits := fun _ => 0 }
+  match start with
+  | none => some (flowExecIR 400 f env 9 start ops 30 5 st == some ([], st, .err (.fw .noStart)))
+  | some s =>
+    let m := flowLoop env 30 (buildTable ops) s 5 st
+    if m.2.2 == .fuel then none
+    else some (flowExecIR 400 f env 9 start ops 30 5 st == some m)
+#eval (List.range 20000).foldl (fun (acc : Nat × Nat × Nat) i => match fagree Flyt.Generated.IR.Flow_Exec (i * 7919 + 13) with
+   | none => (acc.1, acc.2.1, acc.2.2 + 1) | some true => (acc.1 + 1, acc.2.1, acc.2.2) | some false => (acc.1, acc.2.1 + 1, acc.2.2)) (0, 0, 0)
+#eval ((List.range 3000).map (fun i => let (env, ops, start) := flowEnv (i * 7919 + 13); match start with | some s => (flowLoop env 30 (buildTable ops) s 5 { ctx := .live, visits := fun _ => 0 }).1.length | none => 0)).foldl (· + ·) 0
+end Flyt.GoIR.Test
